@@ -139,6 +139,21 @@ GroupViol(mem, entries) == {VG(e[3], e[1]) : e \in {x \in entries : x[1] \in DOM
 RECURSIVE PutAll(_, _)
 PutAll(f, es) == IF es = {} THEN f ELSE LET e == CHOOSE x \in es : TRUE IN PutAll(IF e[1] \in DOMAIN f THEN f ELSE Put(f, e[1], e[2]), es \ {e})
 
+\* GenSchema<S>(ctx, attribute) is called once per custom field with the description and flags the field would
+\* otherwise get (and no type of the generator's own), and its result is the schema entry
+C17Schema(Mm, hooks, real) ==
+  UNION {
+    LET F == Mm.fields[i]
+        calls == CallsOf(hooks, "GenSchema", F.suffix)
+        plain == [AttrModel([F EXCEPT !.kind = "prim"]) EXCEPT !.type = TNone]
+    IN IF Cardinality(calls) # 1 THEN {V("C17.schema_call", F, "not called exactly once")}
+       ELSE LET h == hooks[CHOOSE k \in calls : TRUE]
+            IN (IF RealAttr(h.attr) # [x \in DOMAIN RealAttr(h.attr) |-> plain[x]] \/ ~h.attr.descclean
+                THEN {V("C17.schema_call", F, "attribute passed to the hook")} ELSE {})
+               \cup (IF F.attr \notin DOMAIN real \/ real[F.attr].descw # <<"hook:" \o F.suffix>> \o plain.descw
+                     THEN {V("C17.schema_call", F, "hook result is not the schema entry")} ELSE {})
+    : i \in CustomIdx(Mm) }
+
 SchemaChecks(meta) == {meta.gchecks[i].c : i \in {j \in DOMAIN meta.gchecks : meta.gchecks[j].k = "schema"}}
 
 TraceReset ==
@@ -164,7 +179,7 @@ TraceReset ==
             \cup (IF "C02" \in W THEN C02Of(sd) ELSE {})
             \cup (IF "C10" \in W THEN C10Of(sd) ELSE {})
             \cup (IF "C11" \in W THEN {[x EXCEPT !.sig = x.c \o " " \o @, !.c = "C11.only_addressed"] : x \in sd} ELSE {})
-            \cup (IF "C17" \in W THEN {[x EXCEPT !.c = "C17.schema_call"] : x \in {y \in sd : y.sig # "" /\ \E i \in DOMAIN b.m.fields : b.m.fields[i].kind = "custom" /\ b.m.fields[i].path = y.p}} ELSE {})
+            \cup (IF "C17" \in W /\ reg THEN C17Schema(b.m, Line.hooks, Line.schema.attrs) ELSE {})
             \cup (IF "C18" \in W THEN {[x EXCEPT !.sig = x.c \o " " \o @, !.c = "C18.exclude_restores"] : x \in sd} ELSE {})
             \cup (IF gen.exit = 0 /\ Len(gen.alts) = Len(cfg.alts) THEN AltViol(cfg, gen) ELSE {})
             \cup GroupViol(mem, entries) \cup schViol
@@ -207,7 +222,7 @@ TraceStep(e) ==
                      \cup (IF paired /\ e = "CopyTo" /\ \E i \in DOMAIN pr.occ : PresentAt(Line.tf, pr.occ[i].ap)
                            THEN {VG("C11.excl.to_absent", pr.key)} ELSE {})
          pairEval == IF paired THEN {pr.prop} ELSE {}
-         j == Judge(e, Wanted, M, tt, aux, [pobj |-> obj, ptf |-> tf, obj |-> Line.obj, tf |-> Line.tf, dg |-> Line.diags, pn |-> pn, conv |-> Line.conv])
+         j == Judge(e, Wanted, M, tt, aux, [pobj |-> obj, ptf |-> tf, obj |-> Line.obj, tf |-> Line.tf, dg |-> Line.diags, pn |-> pn, conv |-> Line.conv, hooks |-> Line.hooks])
          toR == ToMsg(Mi, obj, tf)
          fromR == FromMsg(Mi, tf, obj)
          drift ==
